@@ -517,14 +517,56 @@ def r1_5(repo: Repo) -> RuleResult:
     return rr
 
 
-RULES = [r1_1, r1_2, r1_3, r1_4, r1_5]
+def r1_6(repo: Repo) -> RuleResult:
+    rr = RuleResult("R1.6", "dense results allocated on the transform path have a fitted column extent", floor=3)
+    allocs = {"numpy.ndarray", "numpy.empty", "numpy.zeros", "numpy.ones", "numpy.full"}
+    seen: Set[Tuple[str, int]] = set()
+    for c in exported_estimators(repo):
+        tr = repo.resolve_method(c, "transform")
+        if tr is None:
+            continue
+        t = tainted_names(tr, {p for p in tr.params if p != "self"})
+        rets: Set[str] = set()
+        for n in walk_no_nested(tr.node):
+            if isinstance(n, ast.Return) and n.value is not None:
+                rets |= names_in(n.value)
+        for n in walk_no_nested(tr.node):
+            if not (isinstance(n, ast.Assign) and isinstance(n.targets[0], ast.Name) and n.targets[0].id in rets and isinstance(n.value, ast.Call)):
+                continue
+            if repo.canonical(tr.module, n.value.func) not in allocs:
+                continue
+            shape = n.value.args[0] if n.value.args else None
+            for k in n.value.keywords:
+                if k.arg == "shape":
+                    shape = k.value
+            if shape is None:
+                continue
+            sh = expand_locals(shape, tr, 2)
+            if not (isinstance(sh, ast.Tuple) and len(sh.elts) == 2):
+                continue
+            if (tr.key, n.lineno) in seen:
+                continue
+            seen.add((tr.key, n.lineno))
+            construct = "%s = %s(...)" % (n.targets[0].id, norm(n.value.func))
+            rows, cols = sh.elts
+            bad_cols = sorted(names_in(cols) & t)
+            if bad_cols:
+                rr.bad(tr, construct, "column extent `%s` of the result depends on the transform input (%s)" % (short(cols), ", ".join(bad_cols)), n.lineno)
+            elif not (names_in(rows) & t):
+                rr.bad(tr, construct, "row extent `%s` does not depend on the number of input items" % short(rows), n.lineno)
+            else:
+                rr.ok(tr, construct, "shape (%s, %s): one row per item, fitted width" % (short(rows, 30), short(cols, 40)), n.lineno)
+    return rr
+
+
+RULES = [r1_1, r1_2, r1_3, r1_4, r1_5, r1_6]
 
 CLAIM = (
     "R1.1 every sparse matrix assembled from a coordinate/CSR triple on a transform path passes shape= whose column "
     "extent is over fitted state only (taint analysis from transform's arguments); R1.2 CSR row pointers advance by "
     "exactly the number of indices appended for the row; R1.3 each row loop terminates its row exactly once and has no "
     "loop-level continue/break/return; R1.4 every dictionary look-up in fitted vocabulary keyed by transform input is "
-    "guarded by an enumerated idiom; R1.5 out-of-range characters are mapped to code 0."
+    "guarded by an enumerated idiom; R1.5 out-of-range characters are mapped to code 0; R1.6 dense result buffers have one row per item and a fitted width."
 )
 NOT_DECIDED = (
     "that each column keeps its meaning beyond shape and guarded look-up (code->column mapping is under C06/C16), row "
